@@ -1246,4 +1246,104 @@ def rule_order(ctx) -> RuleResult:
     return res
 
 
-RULES = [rule_cache, rule_prov, rule_match, rule_keep, rule_dev, rule_width, rule_sortall, rule_clamp, rule_invperm, rule_order]
+def rule_pure(ctx) -> RuleResult:
+    import ast
+
+    from ..model import AnalysisError
+    from ._c17_flow import Flow, alias_origins, inplace_updates
+
+    res = RuleResult(
+        "C18.PURE",
+        "C18",
+        "computing positions does not rewrite its input: Drillhole.desurvey (normalised view) never updates in place (a op= v, a[i] = v) "
+        "an array that may be the caller's depth array itself or a no-copy view of it (np.asarray of a float array, a slice, .T, reshape) — "
+        "the callers go on to store those depths as DEPTH / FROM / TO",
+        floor=1,
+    )
+    dh = ctx.p.cls("Drillhole")
+    fn = dh.methods.get("desurvey")
+    if fn is None:
+        raise AnalysisError("anchor Drillhole.desurvey not found")
+    v = ctx.view(fn)
+    fl = Flow(v.node)
+    params = set(fn.params[1:])
+    ups = inplace_updates(fl, v.node)
+    bad = []
+    for st, b, env in ups:
+        for o, _oenv in alias_origins(fl, b, env):
+            if isinstance(o, ast.Name) and o.id in params:
+                bad.append((st, o.id))
+    res.inst(f"Drillhole.desurvey: {len(ups)} in-place updates, none on (a view of) a parameter", nontrivial=True, ok=not bad)
+    for st, name in bad[:1]:
+        line = st.lineno if fn.node.lineno <= st.lineno <= fn.node.end_lineno else fn.node.lineno
+        res.find("Drillhole", "desurvey", "the depths handed in are updated in place", f"{fn.module.relpath}:{line}",
+                 f"the array updated here may be the caller's `{name}` itself (no copy was made on that path): after the call the caller's depths are "
+                 "distances past the station above, and validate_depth_data / validate_interval_data store them as DEPTH / FROM / TO")
+    return res
+
+
+def rule_mapped(ctx) -> RuleResult:
+    import ast
+
+    from ..model import AnalysisError
+    from ._c17_flow import Flow
+
+    res = RuleResult(
+        "C18.MAPPED",
+        "C18",
+        "once validate_interval_data has matched the added intervals against the existing ones (the collocation test), what it returns is "
+        "computed through that match: no return that the match reaches hands back values that do not depend on it (an early return would "
+        "leave the values of matched intervals in the order given instead of on their cells)",
+        floor=1,
+    )
+    dh = ctx.p.cls("Drillhole")
+    vi0 = dh.methods.get("validate_interval_data")
+    if vi0 is None:
+        raise AnalysisError("anchor Drillhole.validate_interval_data not found")
+    tol0 = [q for q in vi0.params[1:] if q not in _DEPTH_PARAMS + _VALUE_PARAMS]
+    sites = [s for s in _tolerance_sites(ctx, dh, vi0, tol0)]
+    v = ctx.view(vi0)
+    own = [s[3] for s in sites if s[0] is v]
+    fl = Flow(v.node)
+    # the match, as seen from validate_interval_data: the comparison itself, or the call that holds it (a helper that could not be expanded)
+    marks = set(id(c) for c in own)
+    if not own and sites:
+        for c in ast.walk(v.node):
+            if isinstance(c, ast.Call) and fl.nodes_of(c) and any((fl.roots(a) if fl.nodes_of(a) else set()) & set(tol0) for a in list(c.args) + [k.value for k in c.keywords]):
+                marks.add(id(c))
+    if not marks:
+        raise AnalysisError("validate_interval_data: the collocation test was not found")
+
+    def through_match(e, env=None):
+        return any(id(x) in marks for x in fl.atoms(e, env))
+
+    match_defs = {d.id for d in fl.defs if d.value is not None and any(id(x) in marks for x in ast.walk(d.value))}
+    # names whose value depends on the match, transitively
+    changed = True
+    while changed:
+        changed = False
+        for d in fl.defs:
+            if d.id not in match_defs and d.value is not None and not d.scoped and through_match(d.value, fl.env([d.node])):
+                match_defs.add(d.id)
+                changed = True
+    n = 0
+    for r in ast.walk(v.node):
+        if not (isinstance(r, ast.Return) and r.value is not None and fl.nodes_of(r.value)):
+            continue
+        env = fl.env(fl.nodes_of(r.value))
+        reached = any(d in match_defs for ds in env.values() for d in ds)
+        if not reached:
+            continue
+        n += 1
+        ok = through_match(r.value, env)
+        res.inst(f"validate_interval_data:{r.lineno} a return reached by the interval match returns values computed through it", nontrivial=True, ok=ok)
+        if not ok:
+            res.find("Drillhole", "validate_interval_data", "values are returned without passing the interval match", f"{vi0.module.relpath}:{r.lineno}",
+                     "the added intervals were matched against the existing cells, but this return hands the values back as given: values of matched "
+                     "intervals are not moved onto their cells (and the other cells get no fill)")
+    if n == 0:
+        raise AnalysisError("validate_interval_data: no return is reached by the interval match")
+    return res
+
+
+RULES = [rule_cache, rule_prov, rule_match, rule_keep, rule_dev, rule_width, rule_sortall, rule_clamp, rule_invperm, rule_order, rule_pure, rule_mapped]
